@@ -174,6 +174,9 @@ func TestC19(t *testing.T) {
 					// what is stored and advertised follows the latest accepted registration
 					if !ov.Exotic && src.Host != "" {
 						ov2 := c19Overrides[(n*7)%len(c19Overrides)]
+						if n%2 == 0 {
+							ov2 = c19Overrides[0] // no override this time: back to the connection's own address
+						}
 						if !ov2.Exotic && !ov2.ForeignID {
 							uri2 := ov2.URI(id.NodeID, other.NodeID)
 							var arg2 interface{} = vlib.ConnectReq(true, "geth", uri2, "")
